@@ -92,7 +92,7 @@ class Obj(object):
         return "obj-of-%r" % (self.owner,)
 
 
-def make_service(record, ctor_gate=None, raising=False):
+def make_service(record, ctor_gate=None, raising=False, asks_peer=False):
     """a service CLASS (so that the server instantiates it per connection); `record(kind, inst, conn)` is the hook sink;
     `ctor_gate()` -> an Event the constructor waits for, or None (a service whose per-session set-up takes its time);
     `raising`: on_disconnect raises after it has been recorded (an application hook that fails)"""
@@ -110,6 +110,9 @@ def make_service(record, ctor_gate=None, raising=False):
 
         def on_connect(self, conn):
             self.conn = conn
+            if asks_peer:
+                conn.root            # (option "occ") like ClassicService: the service talks to its peer while it is admitted
+            self.admitted = True
             record("c", self, conn)
 
         def exposed_whoami(self):
@@ -118,6 +121,8 @@ def make_service(record, ctor_gate=None, raising=False):
             return cfg["credentials"], peer_key(cfg["endpoints"][1])
 
         def on_disconnect(self, conn):
+            if asks_peer and not getattr(self, "admitted", False):
+                return               # the connection never got through on_connect: its clean-up is not a disconnect to count
             record("d", self, conn)
             if self.gate is not None:
                 self.gate.wait(30)           # armed: stay in here until the harness releases it (`h<k>`)
@@ -425,7 +430,7 @@ class InProcBackend(object):
                 peer = "?"
             with self.lock:
                 self.hooks.append((what, peer, inst))
-        self.service = make_service(record, ctor_gate, "rh" in opts)
+        self.service = make_service(record, ctor_gate, "rh" in opts, "occ" in opts)
         cls = dict(threaded=S.ThreadedServer, pool=S.ThreadPoolServer, oneshot=S.OneShotServer)[kind]
         kw = dict(auto_register=False, logger=quiet_logger())
         if "bc" in opts:
@@ -694,7 +699,7 @@ def forking_child_main(argv):
             os.write(fd, ("%s\t%s\t%d/%d\n" % (what, peer, os.getpid(), id(inst))).encode())
         finally:
             os.close(fd)
-    service = make_service(record, None, "rh" in opts)
+    service = make_service(record, None, "rh" in opts, "occ" in opts)
 
     def frame_sink():
         fd = os.open(hookfile, os.O_WRONLY | os.O_APPEND)
@@ -875,8 +880,23 @@ class Client(object):
             return "connect-failed:%s" % errno.errorcode.get(ex.errno, ex.errno)
         s.settimeout(None)
         self.sock, self.open = s, True
-        if self.sess.auth and cred in ("g", "b"):
-            s.sendall(b"A" if cred == "g" else b"X")
+        if self.sess.auth and cred in ("g", "b", "e"):
+            s.sendall(b"X" if cred == "b" else b"A")
+        if cred == "e":
+            # the service's on_connect asks this client for its root (request seq 0): the answer is an exception reply naming a
+            # BaseException class
+            self.nexc = getattr(self, "nexc", 0)
+            s.sendall(peer_exception_frame(0, self.k))
+        elif "occ" in self.sess.opts and cred == "g":
+            # a well-behaved client answers what the service's on_connect asks (the client library does that in connect())
+            conn = self.wrap()
+            t_end = time.time() + 3.0
+            while time.time() < t_end and conn._remote_root is None and not conn.closed:
+                try:
+                    if not conn.serve(0.05) and self.sess.admitted(self):
+                        break
+                except Exception:  # noqa
+                    break
         return "ok"
 
     def wrap(self):
@@ -1120,6 +1140,29 @@ FIRST_RAISE = 6          # index of the first exception answer
 FOREIGN_NAMES = [14, 15, 19, 20]   # indices of names that are in no process-wide table: the server has to ask
 
 
+BASE_EXC_NAMES = ["SystemExit", "KeyboardInterrupt", "GeneratorExit", "BaseException"]
+
+
+def wire_frame(obj):
+    from rpyc.core import brine
+    data = brine.dump(obj)
+    return struct.pack("!LB", len(data), 0) + data + b"\n"
+
+
+def peer_exception_frame(seq, n):
+    """an EXCEPTION reply for request `seq` naming a builtin BaseException class that is not an Exception"""
+    from rpyc.core import consts
+    return wire_frame((consts.MSG_EXCEPTION, seq, (("builtins", BASE_EXC_NAMES[n % len(BASE_EXC_NAMES)]), (), (), "tb")))
+
+
+def evil_reply_frames(n):
+    """two writes in one: an unsolicited REPLY carrying a by-reference object of an unknown class (unboxing it makes the server
+    ask the sender about that class: INSPECT, the connection's first own request, seq 0) and - sent ahead - the EXCEPTION reply
+    to that request naming a BaseException class"""
+    from rpyc.core import consts
+    return wire_frame((consts.MSG_REPLY, 77, (consts.LABEL_REMOTE_REF, ("evil.T%d" % n, 1, 0)))) + peer_exception_frame(0, n)
+
+
 def ping_frame(seq=7):
     """a well-formed request frame: (MSG_REQUEST, seq, (HANDLE_PING, boxed ("x",)))"""
     from rpyc.core import brine, consts
@@ -1138,7 +1181,8 @@ ITEM_BYTES = {
 # ------------------------------------------------------------------------------------------ session
 class Session(object):
     def __init__(self, kind, transport, auth, nb, call_timeout=CALL_TIMEOUT, opts=()):
-        """opts: "hifd" = the server process holds every descriptor number up to ~1100 before the first client comes (its
+        """opts: "occ" = the service's on_connect asks the peer for its root (what ClassicService does) - a client connecting with
+        `e` answers that with an exception reply naming SystemExit / KeyboardInterrupt / ...; "hifd" = the server process holds every descriptor number up to ~1100 before the first client comes (its
         clients' sockets get numbers select() cannot handle); "rh" = the service's on_disconnect raises (after it has been recorded); "bc" = the server's protocol_config
         carries a `before_closed` hook; "gate" = a client connecting with `s`
         sends GOOD credentials at once and it is the service's constructor that waits (per-session set-up that takes its
@@ -1279,6 +1323,13 @@ class Session(object):
             if t == "i":
                 c.send_raw(b"".join(ITEM_BYTES[x]() for x in rest.split(":")[1]))
                 return "-"
+        if t == "y":
+            k, n = rest.split(":")
+            c = self.clients.get(int(k))
+            if c is None or not c.open:
+                return "skip"
+            c.send_raw(evil_reply_frames(int(n)))
+            return "-"
         if t == "w":
             c = self.clients.get(int(rest))
             if c is None or not c.open:
@@ -1326,6 +1377,10 @@ class Session(object):
             c.send_raw(bytes.fromhex(parts[1]))
             return "-"
         raise ValueError("unknown token %r" % (tok,))
+
+    def admitted(self, client):
+        """has the server finished admitting that client (its on_connect hook has been recorded)"""
+        return any(w == "c" and peer == client.peer for w, peer, _i in self.backend.hook_table())
 
     def server_fd(self, peer):
         """the descriptor number under which the pool holds the (open) connection of that peer"""
